@@ -651,7 +651,24 @@ class SimProcess:
             return
         t = getattr(self, "_sim_task", None)
         assert t is not None, "can only join a started process"
-        s.block(lambda: t.done, f"join {t!r}")
+        if timeout is None:
+            s.block(lambda: t.done, f"join {t!r}")
+            return
+        # join with a timeout, in virtual time: the caller goes on when the process has exited or the time is up, whichever the schedule
+        # brings first (a process kept from exiting - e.g. by an unread pipe - for longer than any timeout is a legal schedule)
+        s.checkpoint()
+        me = s.me()
+        deadline = s.now + max(0.0, float(timeout))
+        me.wake_at = deadline
+        s.count("join_with_timeout")
+        me.pred = lambda: t.done or s.now >= deadline
+        me.why = f"join {t!r} until {deadline:.3f}"
+        try:
+            s._switch(me)
+        finally:
+            me.wake_at = None
+        if not t.done:
+            s.count("fault.join_timed_out_before_process_exit")
 
     def is_alive(self):
         t = getattr(self, "_sim_task", None)
@@ -670,7 +687,25 @@ class SimProcess:
         return self.pid
 
     def terminate(self):
-        raise HarnessError("terminate() is not modelled")
+        """SIGTERM: the process dies where it is.  What it had put on queues but its feeder threads had not yet written to the pipe is lost;
+        locks it holds stay held.  (A message cut in the middle of a pipe write is not modelled.)"""
+        s = _sim()
+        if s is None:
+            return
+        t = getattr(self, "_sim_task", None)
+        if t is None or t.done:
+            return
+        pid = self._sim_pid
+        s.checkpoint()
+        for core in list(s.registry.values()):
+            if getattr(core, "kind", None) == "queue" and core.bufs.get(pid):
+                s.count("fault.terminated_process_lost_buffered_puts", len(core.bufs[pid]))
+                core.bufs[pid].clear()
+        s.kill_pid(pid)
+        self._sim_exitcode = -15
+        s.count("fault.process_terminated")
+        s.log("proc.terminate", pid)
+        s.yield_("process.terminate")
 
     kill = terminate
 
